@@ -12,6 +12,7 @@ mod c09;
 mod c10;
 mod c11;
 mod c12;
+mod c13;
 mod c14;
 mod c15;
 mod c16;
@@ -48,6 +49,7 @@ fn registry(id: &str) -> Option<Box<dyn Check>> {
         "C10" => Some(Box::new(c10::C10)),
         "C11" => Some(Box::new(c11::C11)),
         "C12" => Some(Box::new(c12::C12)),
+        "C13" => Some(Box::new(c13::C13)),
         "C14" => Some(Box::new(c14::C14)),
         "C15" => Some(Box::new(c15::C15)),
         "C16" => Some(Box::new(c16::C16)),
